@@ -93,7 +93,7 @@ def harness(ctx):
     n = ctx.choose("inputs", p["ns"], free=True)
     metric = ctx.choose("metric", p["metrics"], free=True)
     thr_metric = metric in NEEDS_THR or metric in ("quantilescore", "within")
-    axes = [a for a in p["axes"] if a in DATA_AXES or (a == "threshold" and thr_metric) or (a in ("obs", "fcst") and not thr_metric and metric != "pit")]
+    axes = [a for a in p["axes"] if (a in DATA_AXES and metric != "within") or (a == "threshold" and thr_metric) or (a in ("obs", "fcst") and not thr_metric and metric != "pit")]
     axis = ctx.choose("axis", axes, free=True)
     typ = ctx.choose("type", ("csv", "text"), free=True)
     use_f = ctx.choose_bool("-f", free=True)
